@@ -26,6 +26,11 @@ type Case struct {
 	// Both zero means the default (0 -> 1), which keeps the signatures of the two-asset lattice unchanged.
 	I int `json:"i,omitempty"`
 	J int `json:"j,omitempty"`
+	// smooth weight change (LBP): Weights are the initial weights, Target the target weights; the pool is poked
+	// at each of Poke (permille of the change duration after its start, ascending) before the operation, which
+	// then runs on the weights in force at the last poke.
+	Target []int64 `json:"target,omitempty"`
+	Poke   []int64 `json:"poke,omitempty"`
 }
 
 // pos returns the effective denom positions.
@@ -55,6 +60,9 @@ func (c Case) sig() string {
 	if c.ExitFee != "" && c.ExitFee != "0" {
 		fee += "+x" + c.ExitFee
 	}
+	if len(c.Target) > 0 {
+		ws += "->" + joinI64(c.Target) + "@" + joinI64(c.Poke)
+	}
 	sig := fmt.Sprintf("%s|%s|%s|%s|%s|%s", c.Pool, c.Op, res, ws, fee, c.Size)
 	i, j := c.pos()
 	if isPairOp(c.Op) && (i != 0 || j != 1) {
@@ -71,6 +79,14 @@ var balOps = []string{"swapOutGivenIn", "swapInGivenOut", "joinSingleTokenIn", "
 var fixedTime = time.Unix(1704067200, 0).UTC()
 
 func newBal(res []*big.Int, weights []int64, fee, exitFee string) (*balancer.Pool, error) {
+	return newBalLBP(res, weights, nil, fee, exitFee)
+}
+
+const lbpDuration = time.Hour
+
+// newBalLBP builds a pool whose weights move linearly from weights to target over lbpDuration starting at
+// fixedTime (target == nil: constant weights).
+func newBalLBP(res []*big.Int, weights, target []int64, fee, exitFee string) (*balancer.Pool, error) {
 	assets := make([]balancer.PoolAsset, len(res))
 	for i := range res {
 		assets[i] = balancer.PoolAsset{Token: coin(i, res[i]), Weight: osmomath.NewInt(weights[i])}
@@ -78,11 +94,41 @@ func newBal(res []*big.Int, weights []int64, fee, exitFee string) (*balancer.Poo
 	if exitFee == "" {
 		exitFee = "0"
 	}
-	p, err := balancer.NewBalancerPool(1, balancer.NewPoolParams(dec(fee), dec(exitFee), nil), assets, "", fixedTime)
+	var smooth *balancer.SmoothWeightChangeParams
+	if target != nil {
+		tgt := make([]balancer.PoolAsset, len(res))
+		for i := range res {
+			tgt[i] = balancer.PoolAsset{Token: coin(i, big.NewInt(0)), Weight: osmomath.NewInt(target[i])}
+		}
+		smooth = &balancer.SmoothWeightChangeParams{StartTime: fixedTime, Duration: lbpDuration, TargetPoolWeights: tgt}
+	}
+	p, err := balancer.NewBalancerPool(1, balancer.NewPoolParams(dec(fee), dec(exitFee), smooth), assets, "", fixedTime)
 	if err != nil {
 		return nil, err
 	}
 	return &p, nil
+}
+
+// lbpWeights is the documented weight schedule, computed independently of the pool: w(t) = initial +
+// (target - initial) * elapsed/duration for start < t <= start+duration, target afterwards; the pool keeps
+// weights multiplied by 2^30 and the elapsed fraction as an 18-decimal value, so the reference is compared after
+// scaling and must agree to within one unit of the scaled weight per asset. Returned weights are scaled by 2^30.
+func lbpWeights(initial, target []int64, permille int64) []*big.Rat {
+	out := make([]*big.Rat, len(initial))
+	scale := new(big.Rat).SetInt(new(big.Int).Lsh(big.NewInt(1), 30))
+	frac := big.NewRat(permille, 1000)
+	if permille >= 1000 {
+		frac = big.NewRat(1, 1)
+	}
+	if permille <= 0 {
+		frac = big.NewRat(0, 1)
+	}
+	for i := range initial {
+		d := new(big.Rat).Sub(big.NewRat(target[i], 1), big.NewRat(initial[i], 1))
+		w := new(big.Rat).Add(big.NewRat(initial[i], 1), d.Mul(d, frac))
+		out[i] = w.Mul(w, scale)
+	}
+	return out
 }
 
 // balSnap is the observable state of a balancer pool.
@@ -201,12 +247,57 @@ var hugeShares = osmomath.NewIntFromBigInt(new(big.Int).Lsh(big.NewInt(1), 200))
 // evalBal evaluates one balancer lattice point on a fresh pool.
 func evalBal(sk sink, c Case) {
 	res := ints(c.Reserves)
-	p, err := newBal(res, c.Weights, c.Fee, c.ExitFee)
+	var tgt []int64
+	if len(c.Target) > 0 {
+		tgt = c.Target
+	}
+	p, err := newBalLBP(res, c.Weights, tgt, c.Fee, c.ExitFee)
 	if err != nil {
 		sk.reject(errClass("newpool", err))
 		return
 	}
 	w := c.Weights
+	if tgt != nil {
+		// poke the pool along the schedule, then take the weights in force from the independent schedule (rounded
+		// to the pool's own 2^30 resolution) - NOT from the pool's bookkeeping, which is what is under test
+		last := int64(0)
+		for _, pm := range c.Poke {
+			cl := try(func() error {
+				p.PokePool(fixedTime.Add(time.Duration(pm) * lbpDuration / 1000))
+				return nil
+			})
+			sk.transition()
+			if cl != "" {
+				sk.violation("lbp_poke_succeeds", c.sig(), fmt.Sprintf("%s: PokePool at %d permille: %s", c.sig(), pm, cl), c)
+				return
+			}
+			last = pm
+		}
+		ref := lbpWeights(c.Weights, tgt, last)
+		w = make([]int64, len(ref))
+		for i, r := range ref {
+			fl := new(big.Int).Quo(r.Num(), r.Denom())
+			w[i] = fl.Int64()
+			got, gerr := p.GetTokenWeight(denoms[i])
+			if gerr != nil {
+				sk.violation("lbp_weight_follows_schedule", c.sig(), fmt.Sprintf("%s: GetTokenWeight(%s): %v", c.sig(), denoms[i], gerr), c)
+				return
+			}
+			diff := new(big.Int).Sub(got.BigInt(), fl)
+			if diff.CmpAbs(big.NewInt(1)) > 0 {
+				sk.violation("lbp_weight_follows_schedule", c.sig(), fmt.Sprintf("%s: asset %d weight after the pokes %s, documented schedule at %d permille gives %s (x 2^30)", c.sig(), i, got, last, r.FloatString(3)), c)
+				return
+			}
+			w[i] = got.BigInt().Int64() // identical up to the unit just checked; use the pool's own rounding of the schedule
+		}
+		sk.vac("lbp_cases_evaluated")
+		if last > 0 && last < 1000 {
+			sk.vac("lbp_cases_mid_change")
+		}
+		if last >= 1000 {
+			sk.vac("lbp_cases_after_change")
+		}
+	}
 	fee := dec(c.Fee)
 	feeR := ratOf(c.Fee)
 	exitFeeR := big.NewRat(0, 1)
